@@ -1,7 +1,8 @@
 #!/usr/bin/env bash
 # builds the downstream crate twice (with and without cargo features named alloc/std) against /repo
 set -u
-cd /verif/harness || exit 2
-cargo build --release -p downstream --features std --target-dir /verif/work/target-ds-feat >/verif/work/build-ds-feat.log 2>&1 || { echo "downstream (features) build failed"; tail -n 30 /verif/work/build-ds-feat.log; exit 2; }
-cargo build --release -p downstream --target-dir /verif/work/target-ds-nofeat >/verif/work/build-ds-nofeat.log 2>&1 || { echo "downstream (no features) build failed"; tail -n 30 /verif/work/build-ds-nofeat.log; exit 2; }
+R="${VERIF_ROOT:-/verif}"
+cd "$R/harness" || exit 2
+cargo build --release -p downstream --features std --target-dir "$R/work/target-ds-feat" >"$R/work/build-ds-feat.log" 2>&1 || { echo "downstream (features) build failed"; tail -n 30 "$R/work/build-ds-feat.log"; exit 2; }
+cargo build --release -p downstream --target-dir "$R/work/target-ds-nofeat" >"$R/work/build-ds-nofeat.log" 2>&1 || { echo "downstream (no features) build failed"; tail -n 30 "$R/work/build-ds-nofeat.log"; exit 2; }
 exit 0
